@@ -121,7 +121,7 @@ Example C02_example_error_at_call_index_2 :
 Proof. exact witness_error_at_index_2. Qed.
 
 Example C02_example_deferred_callback_returns_ErrSkip :
-  let '(s', tr, out) := wf_run (mk_step (bs "var A2 = 1") RNil false false [([], RSkip)]) (ok_step "var B0 = 1") in
+  let '(s', tr, out) := wf_run (mk_step (bs "var A2 = 1") RNil false false [SD [] RSkip []]) (ok_step "var B0 = 1") in
   out = Failed (EDefer (bs "g1") (bs "m/a")) /\ unchanged s' [a_g1; a_g2; b_g1; the_sum] = true.
 Proof. exact witness_deferred_error. Qed.
 
